@@ -4,6 +4,7 @@ mod c02;
 mod c03;
 mod c06;
 mod c07;
+mod c08;
 mod c09;
 mod c10;
 mod c11;
@@ -76,6 +77,7 @@ fn main() {
         "c03" => c03::run(&opts),
         "c06" => c06::run(&opts),
         "c07" => c07::run(&opts),
+        "c08" => c08::run(&opts),
         "c09" => c09::run(&opts),
         "c10" => c10::run(&opts),
         "c11" => c11::run(&opts),
